@@ -95,6 +95,13 @@ func runC08(c *Ctx) {
 			case *ssa.Call:
 				if isHandlerInvocation(u) {
 					dispatch = append(dispatch, u)
+					// the loop invokes the Handler interface itself: the chain continues in the library's own
+					// Handler implementations (mux, state machine, gates)
+					for _, hf := range c.P.LibraryFuncs() {
+						if hf.Name() == "ServeDIAM" && hf.Signature.Recv() != nil && hf.Synthetic == "" && isHandlerSig(types.NewSignatureType(nil, nil, nil, hf.Signature.Params(), hf.Signature.Results(), false)) {
+							dispatchCallees = append(dispatchCallees, hf)
+						}
+					}
 					continue
 				}
 				if g := flow.StaticCallee(u); g != nil && c.reachesHandler(g, false, memoPlain) {
